@@ -257,7 +257,9 @@ func (b *ocspBehaviour) okWorthy(st time.Time) bool {
 	return false
 }
 
-func (b *ocspBehaviour) revokedEvidence() bool { return b.class == clsRevoked || b.class == clsRevokedInv }
+func (b *ocspBehaviour) revokedEvidence() bool {
+	return b.class == clsRevoked || b.class == clsRevokedInv
+}
 
 func (b *ocspBehaviour) revokedNotExempt(st time.Time) bool {
 	return b.class == clsRevoked || (b.class == clsRevokedInv && !b.okWorthy(st))
@@ -565,7 +567,9 @@ func init() {
 			"an unknown critical single extension on an authentic Good answer is a don't-care (recorded, not judged)", "follow-up requests issued by http.Client for a 3xx are the client's policy and are exempt from the http-only rule"},
 		Init:      c04Init,
 		Scenarios: c04Scenarios,
-		Alphabet:  func(mc.Tier) map[string]int { return map[string]int{"responder_behaviours": len(c04Behaviours), "max_urls": 3, "serial_classes": 3} },
+		Alphabet: func(mc.Tier) map[string]int {
+			return map[string]int{"responder_behaviours": len(c04Behaviours), "max_urls": 3, "serial_classes": 3}
+		},
 		Guards: func(s *mc.Stats, t mc.Tier) []string {
 			var w []string
 			for _, o := range []string{"verdict:OK", "verdict:Revoked", "verdict:Unknown", "request:GET", "request:POST"} {
